@@ -30,7 +30,7 @@ use erltf::{OwnedTerm, decoder};
 use std::time::Duration;
 use tokio::io::{AsyncReadExt, AsyncWriteExt};
 use tokio::net::TcpStream;
-use tokio::net::tcp::OwnedReadHalf;
+use tokio::net::tcp::{OwnedReadHalf, OwnedWriteHalf};
 use tracing::{debug, trace};
 
 const DEFAULT_TIMEOUT: Duration = Duration::from_secs(10);
@@ -112,6 +112,46 @@ pub struct Connection {
     transport: FramedTransport,
     atom_cache: AtomCache,
     fragment_assembler: FragmentAssembler,
+}
+
+/// Ends the connection unless the frame being written was completed.
+///
+/// A send that fails, times out or is cancelled (its future dropped) between two partial writes
+/// leaves part of a frame on the stream. Whatever is written after that would be read by the
+/// peer as the rest of that frame, so nothing more may be sent: the connection is closed, which
+/// also lets the peer see the end of the stream instead of waiting for the missing bytes.
+struct FrameWrite<'a> {
+    connection: &'a mut Connection,
+    complete: bool,
+}
+
+impl<'a> FrameWrite<'a> {
+    fn begin(connection: &'a mut Connection) -> Self {
+        Self {
+            connection,
+            complete: false,
+        }
+    }
+
+    fn stream(&mut self) -> Result<&mut OwnedWriteHalf> {
+        self.connection
+            .transport
+            .write_half_mut()
+            .ok_or_else(|| Error::InvalidStateMessage("no active stream".to_string()))
+    }
+
+    fn complete(mut self) {
+        self.complete = true;
+    }
+}
+
+impl Drop for FrameWrite<'_> {
+    fn drop(&mut self) {
+        if !self.complete {
+            self.connection.transport.close();
+            self.connection.handshake.disconnect();
+        }
+    }
 }
 
 impl Connection {
@@ -293,7 +333,10 @@ impl Connection {
             });
         }
 
-        self.write_message(data).await
+        let frame = FrameWrite::begin(self);
+        frame.connection.write_message(data).await?;
+        frame.complete();
+        Ok(())
     }
 
     pub async fn receive_raw(&mut self) -> Result<Vec<u8>> {
@@ -610,10 +653,8 @@ impl Connection {
                     total_len
                 );
 
-                let stream = self
-                    .transport
-                    .write_half_mut()
-                    .ok_or_else(|| Error::InvalidStateMessage("no active stream".to_string()))?;
+                let mut frame = FrameWrite::begin(self);
+                let stream = frame.stream()?;
 
                 stream.write_u32(frame_len).await?;
                 #[cfg(edp_rs_verif)]
@@ -626,6 +667,7 @@ impl Connection {
                 crate::verif_hooks::yield_point("send:after_control").await;
                 stream.write_all(&msg_encoded).await?;
                 stream.flush().await?;
+                frame.complete();
             } else {
                 let total_len = 1 + control_encoded.len();
                 let frame_len = Self::frame_length(total_len)?;
@@ -635,10 +677,8 @@ impl Connection {
                     total_len
                 );
 
-                let stream = self
-                    .transport
-                    .write_half_mut()
-                    .ok_or_else(|| Error::InvalidStateMessage("no active stream".to_string()))?;
+                let mut frame = FrameWrite::begin(self);
+                let stream = frame.stream()?;
 
                 stream.write_u32(frame_len).await?;
                 #[cfg(edp_rs_verif)]
@@ -648,6 +688,7 @@ impl Connection {
                 crate::verif_hooks::yield_point("send:after_marker").await;
                 stream.write_all(&control_encoded).await?;
                 stream.flush().await?;
+                frame.complete();
             }
 
             trace!("Sent control message: {:?}", control);
@@ -672,18 +713,18 @@ impl Connection {
             trace!("Sending DIST_HEADER control: total_len={}", encoded.len());
         }
 
-        let stream = self
-            .transport
-            .write_half_mut()
-            .ok_or_else(|| Error::InvalidStateMessage("no active stream".to_string()))?;
+        let timeout = self.config.timeout;
+        let mut frame = FrameWrite::begin(self);
+        let stream = frame.stream()?;
 
-        tokio::time::timeout(self.config.timeout, stream.write_all(&buf))
+        tokio::time::timeout(timeout, stream.write_all(&buf))
             .await
-            .map_err(|_| Error::Timeout(self.config.timeout))??;
+            .map_err(|_| Error::Timeout(timeout))??;
 
-        tokio::time::timeout(self.config.timeout, stream.flush())
+        tokio::time::timeout(timeout, stream.flush())
             .await
-            .map_err(|_| Error::Timeout(self.config.timeout))??;
+            .map_err(|_| Error::Timeout(timeout))??;
+        frame.complete();
 
         trace!("Sent control message: {:?}", control);
 
